@@ -197,6 +197,14 @@ func resolveIRI(ectx evaluationContext, prefixes *iri.PrefixManager, value strin
 		return rdf.IRI(expanded)
 	}
 
+	// A CURIE prefix is an NCName: when the text before the first colon contains '/', '?' or '#', the colon
+	// belongs to a later component of a relative reference (e.g. "/wiki/Help:Contents", "?a=b:c", "#a:b").
+	if baseURL != nil && strings.ContainsAny(valueSplit[0], "/?#") {
+		if resolved, err := baseURL.Parse(value); err == nil {
+			return rdf.IRI(resolved.String())
+		}
+	}
+
 	// If the prefix is empty and not found in prefix mappings, use default vocabulary
 	if valueSplit[0] == "" && defaultVocabulary != nil {
 		if len(valueSplit[1]) == 0 {
